@@ -1,0 +1,61 @@
+//go:build verif
+
+package board
+
+import (
+	"slices"
+
+	. "github.com/paulsonkoly/chess-3/chess"
+)
+
+// VerifSnap is a deep copy of every attribute of a Board.
+type VerifSnap struct {
+	SquaresToPiece [64]Piece
+	Pieces         [7]BitBoard
+	Colors         [2]BitBoard
+	Hashes         []Hash
+	FullMoves      int
+	STM            Color
+	EnPassant      Square
+	Castles        Castles
+	FiftyCnt       int
+}
+
+// VerifSnapshot returns a deep copy of b's state including the hash history.
+func (b *Board) VerifSnapshot() VerifSnap {
+	return VerifSnap{
+		SquaresToPiece: b.SquaresToPiece,
+		Pieces:         b.Pieces,
+		Colors:         b.Colors,
+		Hashes:         slices.Clone(b.hashes),
+		FullMoves:      b.fullMoves,
+		STM:            b.STM,
+		EnPassant:      b.EnPassant,
+		Castles:        b.Castles,
+		FiftyCnt:       int(b.FiftyCnt),
+	}
+}
+
+// Equal reports whether two snapshots are identical (slice contents, not capacity).
+func (s VerifSnap) Equal(o VerifSnap) bool {
+	return s.SquaresToPiece == o.SquaresToPiece && s.Pieces == o.Pieces && s.Colors == o.Colors &&
+		slices.Equal(s.Hashes, o.Hashes) && s.FullMoves == o.FullMoves && s.STM == o.STM &&
+		s.EnPassant == o.EnPassant && s.Castles == o.Castles && s.FiftyCnt == o.FiftyCnt
+}
+
+// VerifCalculateHash is the from-scratch hash of b.
+func (b *Board) VerifCalculateHash() Hash { return b.calculateHash() }
+
+// VerifHashLen is the length of the hash history.
+func (b *Board) VerifHashLen() int { return len(b.hashes) }
+
+// VerifFullMoves is the fullmove number.
+func (b *Board) VerifFullMoves() int { return b.fullMoves }
+
+// VerifClone returns an independent deep copy of b.
+func (b *Board) VerifClone() *Board {
+	c := *b
+	c.hashes = make([]Hash, len(b.hashes), max(128, 2*len(b.hashes)))
+	copy(c.hashes, b.hashes)
+	return &c
+}
